@@ -27,10 +27,161 @@ class C11(EngineProp):
     level_note = 'Trusted: as C07; a cut while a user coroutine handler is suspended mid-await is represented only as "handler pending".'
     design_ref = '§5 C11'
     rule = ('as C07, with orderly EOF, transport error or explicit close() injected after 3..22 groups on any mix of pending interactions in both roles, followed by further '
-            'application activity; non-trivial = at least one interaction pending at the moment of loss; distinct = distinct entry-point sequence')
+            'application activity; plus a real TransportTCP endpoint (either role) with 0..2 pending request-responses, stream subscriptions and suspended incoming handlers whose byte stream is cut after 0..40 bytes of a frame by EOF, ConnectionResetError or TimeoutError; non-trivial = at least one interaction pending at the moment of loss; distinct = distinct entry-point sequence')
     assumptions = ['application cancel()/on_close callbacks do not raise unless scripted to']
 
+    # -- the byte-stream transport: the link is cut between any two bytes, by EOF or by a read error -------------------------
+    def cases(self, rng, tier):
+        out = super().cases(rng, tier)
+        for _ in range(60 if tier == 'quick' else 3000):
+            out.append({'mode': 'tcp', 'role': rng.choice(['client', 'server']), 'profile': 'tcp-cut', 'cut': rng.choice(['eof', 'reset', 'timeout']),
+                        'partial': rng.randint(0, 40), 'rr': rng.randint(0, 2), 'streams': rng.randint(0, 2), 'incoming': rng.randint(0, 2)})
+        return out
+
+    def run_impl(self, case):
+        if case.get('mode') == 'tcp':
+            from harness import detloop
+            return detloop.run(self._tcp_cut, case)
+        return super().run_impl(case)
+
+    async def _tcp_cut(self, loop, case):
+        import asyncio
+        from datetime import timedelta
+        from rsocket.transports.tcp import TransportTCP
+        from rsocket.rsocket_client import RSocketClient
+        from rsocket.rsocket_server import RSocketServer
+        from rsocket.helpers import single_transport_provider
+        from rsocket.request_handler import BaseRequestHandler
+        from rsocket.payload import Payload
+        from harness import engine
+        from harness.link import Writer
+        log = {'on_close': 0, 'handler_futures': [], 'wire': bytearray()}
+
+        class L:
+            stream = [log['wire'], bytearray()]
+        reader = asyncio.StreamReader()
+        t = TransportTCP(reader, Writer(L, 0))
+
+        class H(BaseRequestHandler):
+            async def request_response(self, payload):
+                f = asyncio.get_event_loop().create_future()
+                log['handler_futures'].append(f)
+                return f
+
+            async def on_close(self, rsocket, exception=None):
+                log['on_close'] += 1
+        if case['role'] == 'client':
+            ep = RSocketClient(single_transport_provider(t), handler_factory=H, keep_alive_period=timedelta(seconds=100000), max_lifetime_period=timedelta(seconds=1000000))
+            await ep.connect()
+            peer_first = 2
+        else:
+            ep = RSocketServer(t, handler_factory=H)
+            peer_first = 1
+        await loop.settle()
+
+        def feed(spec):
+            b = engine.build_frame(spec).serialize()
+            return len(b).to_bytes(3, 'big') + b
+        if case['role'] == 'server':
+            reader.feed_data(feed({'ty': 'SETUP', 'sid': 0, 'data': [1]}))
+            await loop.settle()
+
+        class Sub:
+            def __init__(self): self.events = []
+            def on_subscribe(self, s): self.events.append('subscribe')
+            def on_next(self, v, is_complete=False): self.events.append('next')
+            def on_complete(self): self.events.append('complete')
+            def on_error(self, e): self.events.append('error:' + type(e).__name__)
+        futs = [ep.request_response(Payload(b'rr%d' % i)) for i in range(case['rr'])]
+        subs = []
+        for i in range(case['streams']):
+            s = Sub()
+            ep.request_stream(Payload(b'st%d' % i)).subscribe(s)
+            subs.append(s)
+        for i in range(case['incoming']):
+            reader.feed_data(feed({'ty': 'REQUEST_RESPONSE', 'sid': peer_first + 2 * i, 'data': [9]}))
+        await loop.settle()
+        # the cut: first `partial` bytes of one more frame, then the end
+        tail = feed({'ty': 'REQUEST_FNF', 'sid': peer_first + 100, 'data': list(range(1, 60))})
+        if case['partial']:
+            reader.feed_data(tail[:case['partial']])
+            await loop.settle()
+        if case['cut'] == 'eof':
+            reader.feed_eof()
+        elif case['cut'] == 'reset':
+            reader.set_exception(ConnectionResetError(104, 'Connection reset by peer'))
+        else:
+            reader.set_exception(TimeoutError(110, 'Connection timed out'))
+        await loop.settle()
+        n_wire = len(log['wire'])
+        # a frame handed to the endpoint after the end must not be written
+        try:
+            ep.fire_and_forget(Payload(b'late'))
+        except Exception:
+            pass
+        await loop.settle()
+        res = {'mode': 'tcp', 'futures': ['pending' if not f.done() else ('cancelled' if f.cancelled() else ('error:' + type(f.exception()).__name__ if f.exception() else 'result')) for f in futs],
+               'subs': [s.events for s in subs], 'handler_futures': ['cancelled' if f.cancelled() else ('pending' if not f.done() else 'done') for f in log['handler_futures']],
+               'on_close': log['on_close'], 'sender_alive': ep._sender_task is not None and not ep._sender_task.done(),
+               'receiver_alive': ep._receiver_task is not None and not ep._receiver_task.done(), 'written_after_end': len(log['wire']) - n_wire,
+               'table': sorted(ep._stream_control._streams.keys()), 'incoming': len(log['handler_futures'])}
+        try:
+            await ep.close()
+        except Exception:
+            pass
+        return res
+
+    def model_lines(self, case, obs):
+        if case.get('mode') == 'tcp':
+            return []
+        return super().model_lines(case, obs)
+
+    def compare(self, case, obs, answers):
+        if case.get('mode') == 'tcp':
+            return None
+        return super().compare(case, obs, answers)
+
+    def stats(self, case, obs):
+        if case.get('mode') == 'tcp':
+            yield 'mode=tcp'
+            yield 'cut=' + case['cut']
+            yield 'role=' + case['role']
+            return
+        yield from super().stats(case, obs)
+
+    def shrink_candidates(self, case):
+        if case.get('mode') == 'tcp':
+            for k in ('rr', 'streams', 'incoming', 'partial'):
+                if case[k]:
+                    yield dict(case, **{k: case[k] - 1})
+            return
+        yield from super().shrink_candidates(case)
+
+    def _tcp_oracle(self, case, obs):
+        fails = []
+        how = 'cut=%s after %d bytes of a frame' % (case['cut'], case['partial'])
+        for i, f in enumerate(obs['futures']):
+            if not f.startswith('error'):
+                fails.append({'signature': 'pending-request-response-not-failed', 'what': 'TransportTCP, %s: request-response %d is %s' % (how, i, f)})
+        for i, ev in enumerate(obs['subs']):
+            if [e for e in ev if e.startswith('error')] == [] or ev[-1].split(':')[0] != 'error' or len([e for e in ev if e.startswith('error') or e == 'complete']) != 1:
+                fails.append({'signature': 'pending-subscriber-not-failed:stReq', 'what': 'TransportTCP, %s: stream subscriber %d saw %s' % (how, i, ev)})
+        for i, f in enumerate(obs['handler_futures']):
+            if f != 'cancelled':
+                fails.append({'signature': 'handler-future-not-cancelled', 'what': 'TransportTCP, %s: handler future %d is %s' % (how, i, f)})
+        if obs['on_close'] != 1:
+            fails.append({'signature': 'close-notification-count', 'what': 'TransportTCP, %s: on_close delivered %d times' % (how, obs['on_close'])})
+        if obs['sender_alive']:
+            fails.append({'signature': 'sender-still-running', 'what': 'TransportTCP, %s: the sender task is still running' % how})
+        if obs['written_after_end']:
+            fails.append({'signature': 'sends-after-close', 'what': 'TransportTCP, %s: %d bytes written after the connection ended' % (how, obs['written_after_end'])})
+        if obs['table']:
+            fails.append({'signature': 'streams-left-registered', 'what': 'TransportTCP, %s: streams %s still registered' % (how, obs['table'])})
+        return fails
+
     def oracle(self, case, obs):
+        if case.get('mode') == 'tcp':
+            return self._tcp_oracle(case, obs)
         fails = []
         steps = obs['steps']
         lost = [i for i, (m, _) in enumerate(steps) if m in ('LOST', 'STOP')]
@@ -95,6 +246,8 @@ class C11(EngineProp):
 
     def nontrivial(self, case, obs):
         import json
+        if case.get('mode') == 'tcp':
+            return json.dumps(case, sort_keys=True) if (case['rr'] or case['streams'] or case['incoming']) else None
         steps = obs['steps']
         if any(m in ('LOST', 'STOP') for m, _ in steps) and obs['kinds']:
             return json.dumps([case['role'], [m for m, _ in steps]])
